@@ -64,6 +64,54 @@ Section C05.
   Theorem C05_final_combi_dw_unchanged_refuted : forall xs s,
     st_total (final_combi_dw_asis V vzero vadd vopp xs (evaluate_dw V vzero vadd vopp xs s)) = vadd (vsum V vzero vadd xs) (vsum V vzero vadd xs).
   Proof. exact (final_combi_dw_asis_doubles V vzero vadd vopp vadd_assoc vadd_comm vadd_0_l). Qed.
+
+  (* ---- side evaluations (apply_to_combi_result = False; twin errors of split_single_dim, temporary parent areas) ----
+     the accumulator invariant of a driver that performs side evaluations is Inv2 modulo the (meaningless) values of the
+     not yet evaluated new areas; a side evaluation on a new area or on an area outside the container preserves it *)
+  Theorem C05_side_preserves_invariant : forall s id x,
+    side_ok V s id -> InvS V vzero vadd s -> InvS V vzero vadd (apply_event V vzero vadd vopp s (ASide id x)).
+  Proof. exact (side_preserves_invariant V vzero vadd vopp). Qed.
+
+  (* REFINEMENT: whatever side / error-estimate evaluations are interleaved with the steps of the (repaired) driver - each on a
+     new or temporary area, refine() only after an evaluation - the state is, modulo those values, the state of the driver
+     WITHOUT them, and that one satisfies the invariant: for every history *)
+  Theorem C05_side_evaluations_invisible : forall steps s t,
+    Inv2 V vzero vadd t -> zero_new V vzero s = t -> wfx_from V vzero vadd vopp s steps ->
+    zero_new V vzero (run_steps V vzero vadd vopp true steps s) = run_steps V vzero vadd vopp true (strip_sides V steps) t /\
+    Inv2 V vzero vadd (run_steps V vzero vadd vopp true (strip_sides V steps) t).
+  Proof. exact (side_evaluations_invisible V vzero vadd vopp vadd_assoc vadd_comm vadd_0_l vadd_opp_r). Qed.
+
+  Theorem C05_running_total_inv_with_sides : forall steps s,
+    Inv2 V vzero vadd s -> wfx_from V vzero vadd vopp s steps -> InvS V vzero vadd (run_steps V vzero vadd vopp true steps s).
+  Proof. exact (running_total_inv_with_sides V vzero vadd vopp vadd_assoc vadd_comm vadd_0_l vadd_opp_r). Qed.
+
+  (* what the caller sees: reported value and container value are those of the driver without side evaluations, and the
+     reported value is the sum of the stored per-area results *)
+  Theorem C05_side_evaluations_same_result : forall steps s,
+    Inv2 V vzero vadd s -> wfx_from V vzero vadd vopp s steps ->
+    st_total (run_steps V vzero vadd vopp true steps s) = st_total (run_steps V vzero vadd vopp true (strip_sides V steps) s) /\
+    st_cont (run_steps V vzero vadd vopp true steps s) = st_cont (run_steps V vzero vadd vopp true (strip_sides V steps) s) /\
+    st_total (run_steps V vzero vadd vopp true steps s) =
+      vsum V vzero vadd (map snd (st_areas (run_steps V vzero vadd vopp true (strip_sides V steps) s))).
+  Proof. exact (side_evaluations_same_result V vzero vadd vopp vadd_assoc vadd_comm vadd_0_l vadd_opp_r). Qed.
+
+  (* ... whereas the same evaluation made WITH apply_to_combi_result adds its partial result to the reported value *)
+  Theorem C05_side_with_flag_pollutes : forall s id x bc,
+    st_total (apply_event V vzero vadd vopp s (AEval id x true bc)) = vadd (st_total s) x.
+  Proof. exact (side_with_flag_pollutes V vzero vadd vopp). Qed.
+
+  (* recalculate_frequently: REFUTED for the code as it is (every area is evaluated again on top of the kept running total),
+     proved for the repaired variant that also resets the running total *)
+  Theorem C05_recalculate_unchanged_refuted : forall parts s,
+    Inv V vzero vadd s -> Consistent V vzero vadd parts s ->
+    st_total (evaluate_new V vzero vadd vopp true parts (recalc_asis V vzero vadd vopp s)) = vadd (st_total s) (st_total s) /\
+    st_cont (evaluate_new V vzero vadd vopp true parts (recalc_asis V vzero vadd vopp s)) = st_total s.
+  Proof. exact (recalc_asis_doubles V vzero vadd vopp vadd_assoc vadd_comm vadd_0_l). Qed.
+  Theorem C05_recalculate_repaired_unchanged : forall parts s,
+    Inv V vzero vadd s -> Consistent V vzero vadd parts s ->
+    st_total (evaluate_new V vzero vadd vopp true parts (recalc_fixed V vzero vadd vopp s)) = st_total s /\
+    st_cont (evaluate_new V vzero vadd vopp true parts (recalc_fixed V vzero vadd vopp s)) = st_total s.
+  Proof. exact (recalc_fixed_total V vzero vadd vopp vadd_assoc vadd_comm vadd_0_l). Qed.
 End C05.
 Print Assumptions C05_running_total_inv.
 Print Assumptions C05_running_total_inv_alternating.
@@ -71,6 +119,17 @@ Print Assumptions C05_evaluate_dw_total.
 Print Assumptions C05_reevaluate_equals_running_total.
 Print Assumptions C05_reevaluate_idempotent.
 Print Assumptions C05_final_combi_unchanged_refuted.
+Print Assumptions C05_side_preserves_invariant.
+Print Assumptions C05_side_evaluations_invisible.
+Print Assumptions C05_running_total_inv_with_sides.
+Print Assumptions C05_side_evaluations_same_result.
+Print Assumptions C05_recalculate_unchanged_refuted.
+Print Assumptions C05_recalculate_repaired_unchanged.
+
+(* the executable invariant check evaluated on every replayed snapshot is sound *)
+Theorem C05_inv_checkb_sound : forall s : astate Qc, inv_checkb s = true -> Inv Qc 0%Qc Qcplus s.
+Proof. exact inv_checkb_sound. Qed.
+Print Assumptions C05_inv_checkb_sound.
 
 (* get_points_and_weights: the published combined rule applied to the integrand IS the coefficient-weighted sum of the
    component quadratures (any point type, any integrand, any scheme) *)
@@ -101,3 +160,30 @@ Example C05_combined_rule_example :
   let q n := Q2Qc (n # 4) in
   apply_rule (fun x : Qc => x) (combined_rule [(Q2Qc 1, [(q 4, q 2); (q 8, q 2)]); (Q2Qc (-1 # 1), [(q 4, q 4)])]) = q 2.
 Proof. apply Qc_is_canon. vm_compute. reflexivity. Qed.
+
+(* non-vacuity of the side-evaluation theorems over (Z, +): area 2 is refined into 4 and 5; the twin-error evaluations hit the
+   new areas 4, 5 and a temporary parent area 9 that is not in the container; then the driver evaluates *)
+Example C05_sides_nonvacuous :
+  let steps := [DEvaluate zparts1; DRefine [2] [4; 5]; DSide 4 7; DSide 4 (-2); DSide 5 1; DSide 9 6; DEstimate 4; DEvaluate zparts2] in
+  let s0 := a_init Z 0 [1; 2; 3] in
+  wfx_from Z 0 Z.add Z.opp s0 steps /\
+  run_steps Z 0 Z.add Z.opp true steps s0 = run_steps Z 0 Z.add Z.opp true (strip_sides Z steps) s0 /\
+  st_total (run_steps Z 0 Z.add Z.opp true steps s0) = 11 /\
+  (* between refine and evaluate the new areas do carry side values, the reported value does not see them *)
+  st_areas (run_steps Z 0 Z.add Z.opp true (firstn 7 steps) s0) = [(1, 2); (3, 3); (4, 5); (5, 1)] /\
+  st_total (run_steps Z 0 Z.add Z.opp true (firstn 7 steps) s0) = 5.
+Proof.
+  split; [|repeat split].
+  cbn. unfold side_ok. cbn. repeat split; try (repeat constructor; cbn; intuition lia); cbn; intuition lia.
+Qed.
+(* the seeded defect: the same side evaluations made with apply_to_combi_result report 11 + 7 - 2 + 1 + 6 = 23 *)
+Example C05_side_flag_witness :
+  let s := run_steps Z 0 Z.add Z.opp true [DEvaluate zparts1; DRefine [2] [4; 5]] (a_init Z 0 [1; 2; 3]) in
+  let polluted := fold_left (apply_event Z 0 Z.add Z.opp) [AEval 4 7 true false; AEval 4 (-2) true false; AEval 5 1 true false; AEval 9 6 true false] s in
+  st_total (evaluate_new Z 0 Z.add Z.opp true zparts2 polluted) = 23 /\ st_total (evaluate_new Z 0 Z.add Z.opp true zparts2 s) = 11.
+Proof. repeat split. Qed.
+Example C05_recalculate_witness :
+  let s := run_steps Z 0 Z.add Z.opp true [DEvaluate zparts1] (a_init Z 0 [1; 2; 3]) in
+  st_total s = 9 /\ st_total (evaluate_new Z 0 Z.add Z.opp true zparts1 (recalc_asis Z 0 Z.add Z.opp s)) = 18 /\
+  st_total (evaluate_new Z 0 Z.add Z.opp true zparts1 (recalc_fixed Z 0 Z.add Z.opp s)) = 9.
+Proof. repeat split. Qed.
